@@ -6,6 +6,7 @@ Two contracts per mutating <data> operation:
   content    (bounded: buffer <= CAP bytes): element k of the new payload equals the vector model's element, for a ghost index k;
              CBMC's own memmove/memset models are inlined."""
 import os
+import re
 
 from ..build import Unit, ToolError, ensure_generated, VERIF
 from ..engine import Contract, BUF, OBJ, SET, ASSUME, INRANGE, Loop
@@ -17,8 +18,9 @@ CAP = 8
 QUICK_DYN = [("l8c_le", 1, 0, "char"), ("l32u_be", 4, 1, "unsigned char")]
 ALL_DYN = QUICK_DYN + [("l8u_le", 1, 0, "unsigned char"), ("l8i_le", 1, 0, "signed char"), ("l16c_le", 2, 0, "char"), ("l16u_be", 2, 1, "unsigned char"), ("l32c_le", 4, 0, "char"),
                        ("l32i_be", 4, 1, "signed char"), ("l64c_le", 8, 0, "char"), ("l64u_be", 8, 1, "unsigned char"), ("l8c_be", 1, 1, "char"), ("l64i_le", 8, 0, "signed char")]
-ASSUMPTIONS = ["<data> structure contracts: memmove/memcpy/memset are replaced by frame-only contracts (assigns exactly n bytes at dest, returns dest); their content behaviour is CBMC's model in the bounded content contracts",
-               "<data> content clauses are bounded: buffer <= max(%d, prefix + 4) bytes (ghost element index, both symbolic)" % CAP]
+ASSUMPTIONS = ["<data> element-moving operations: memmove, memset and strlen are ghost-index over-approximations of their ISO C meaning (engine.GHOST_STUBS: every destination byte arbitrary except one "
+               "environment-chosen byte, which is exact; preconditions asserted), so content clauses hold for every element index and every buffer length; memcpy (length prefix codec) is CBMC's model",
+               "insert(pos,first,last) for single-pass input iterators is bounded in the range length (<= 2 elements), unbounded otherwise"]
 GH = [("unsigned long", "sbv_n")]
 
 
@@ -54,7 +56,14 @@ def dyn_contracts(u, ID, lw, be, ety):
         return p, rec, V(u, "(*%s)" % p, rec)
 
     def add(f, name, pre, post, assigns=(), mode="S", props=("C13",), ghosts=GH, **kw):
-        out.append(Contract(f, "dynamic_array_ref::" + name + T, props=set(props), ghosts=list(ghosts), mode=mode, pre=pre, post=post, assigns=list(assigns), **kw))
+        # heavy for SAT with multi-byte length prefixes (minutes): 1-byte prefixes on every change, the others in the thorough tier (best effort)
+        heavy = kw.get("stubs") and (("input iterators" in name) or (lw > 1 and "[content]" in name and any(x in name for x in ("insert(pos", "erase(first,last)"))))
+        if heavy:
+            if not THOROUGH[0]:
+                return
+            kw["optional"] = True
+        c = Contract(f, "dynamic_array_ref::" + name + T, props=set(props), ghosts=list(ghosts), mode=mode, pre=pre, post=post, assigns=list(assigns), **kw)
+        out.append(c)
 
     def LEN(vw):
         return load(vw.begin, lw, be)
@@ -137,17 +146,20 @@ def dyn_contracts(u, ID, lw, be, ety):
     GK = GH + [("unsigned long", "sbv_p"), ("unsigned long", "sbv_q"), ("unsigned long", "sbv_k"), ("unsigned long", "sbv_j")]
     libc = libc_contracts(u)
 
-    def both(f, name, pre_extra, post_struct, post_content, frame_len, props=("C13", "C10"), iters=(), src=None):
-        """iters: [(param name, ghost offset)] iterator parameters pointing into the payload"""
+    def both(f, name, pre_extra, post_struct, post_content, frame_len, props=("C13", "C10"), iters=(), src=None, link=()):
+        """iters: [(param name, ghost offset)] iterator parameters pointing into the payload.
+        Two unbounded contracts: structure clauses (length prefix, returned iterator, reporting, frame; any buffer incl. prefix-only)
+        and content clauses (ghost element indices sbv_k/sbv_j inside the buffer); memmove/memset are the ghost-index over-approximations of engine.GHOST_STUBS,
+        `link` ties their ghost byte indices to sbv_k (one equation per libc call the operation makes)."""
         p, rec, vw = dview(f)
         pre = [OBJ(p, rec)] + vw.wf()
         for prm, gh in iters:
             pre += [INRANGE(prm, "((%s *)(%s + %d))" % (ety, vw.begin, lw), "((%s *)(%s + sbv_n))" % (ety, vw.begin), gh), ASSUME("%d + %s <= sbv_n" % (lw, gh))]
         pre = pre[:3] + [ASSUME("%d <= sbv_n" % lw)] + pre[3:] + pre_extra
         frame = ["__CPROVER_object_upto(%s, sbv_n)" % vw.begin]
-        add(f, name + " [structure]", pre, post_struct, assigns=frame, ghosts=GK, props=props, libc=("memmove", "memset"))
-        add(f, name + " [content]", pre + [ASSUME("sbv_n <= %d" % CAPL), ASSUME("sbv_k < sbv_n && sbv_j < sbv_n && sbv_k + %d < sbv_n && sbv_j + %d < sbv_n" % (lw, lw))], post_content, assigns=frame, ghosts=GK, props=props, kind="bounded(buffer<=%d)" % CAPL, unwind=CAPL + 2,
-            backends=["z3", "cvc5", "kissat", "minisat"])
+        inb = [ASSUME("sbv_k < sbv_n && sbv_j < sbv_n && sbv_k + %d < sbv_n && sbv_j + %d < sbv_n" % (lw, lw))] + [ASSUME(x) for x in link]
+        add(f, name + " [structure]", pre, post_struct, assigns=frame, ghosts=GK, props=props, stubs=("memmove", "memset"))
+        add(f, name + " [content]", pre + inb, post_content, assigns=frame, ghosts=GK, props=props, stubs=("memmove", "memset"))
 
     def el(vw, idx, old=False):
         e = "(uint8_t)%s[%d + %s]" % (vw.begin, lw, idx)
@@ -161,7 +173,7 @@ def dyn_contracts(u, ID, lw, be, ety):
     both(f, "erase(pos)", [], [("pos-inside-or-reported", "sbv_p < %s" % L0), ("payload-in-bounds-or-reported", FITS(L0))] + lenbytes(vw, "%s - 1" % L0) + [("returns-pos", "RET == OLD(%s)" % pos)],
          [("prefix-unchanged-before-pos", "SPEC_IMPLIES(sbv_k < sbv_p, %s == %s)" % (el(vw, "sbv_k"), el(vw, "sbv_k", True))),
           ("tail-shifted-left-by-one", "SPEC_IMPLIES(sbv_k >= sbv_p && sbv_k + 1 < %s && sbv_j == sbv_k + 1, %s == %s)" % (L0, el(vw, "sbv_k"), el(vw, "sbv_j", True)))],
-         None, iters=[(pos, "sbv_p")])
+         None, iters=[(pos, "sbv_p")], link=["sbv_mt0 == %d + sbv_k" % lw])
     # erase(first,last)
     f = tgt("erase_range")
     p, rec, vw = dview(f)
@@ -170,7 +182,7 @@ def dyn_contracts(u, ID, lw, be, ety):
          [("range-inside-or-reported", "sbv_q <= %s" % L0), ("payload-in-bounds-or-reported", FITS(L0))] + lenbytes(vw, "%s - (sbv_q - sbv_p)" % L0) + [("returns-first", "RET == OLD(%s)" % first)],
          [("prefix-unchanged-before-first", "SPEC_IMPLIES(sbv_k < sbv_p, %s == %s)" % (el(vw, "sbv_k"), el(vw, "sbv_k", True))),
           ("tail-shifted-left", "SPEC_IMPLIES(sbv_k >= sbv_p && sbv_k + (sbv_q - sbv_p) < %s && sbv_j == sbv_k + (sbv_q - sbv_p), %s == %s)" % (L0, el(vw, "sbv_k"), el(vw, "sbv_j", True)))],
-         None, iters=[(first, "sbv_p"), (last, "sbv_q")])
+         None, iters=[(first, "sbv_p"), (last, "sbv_q")], link=["sbv_mt0 == %d + sbv_k" % lw])
     add(f, "erase(first,end()) is valid", [OBJ(p, rec)] + vw.wf() + [ASSUME("%d <= sbv_n" % lw), INRANGE(first, "((%s *)(%s + %d))" % (ety, vw.begin, lw), "((%s *)(%s + sbv_n))" % (ety, vw.begin), "sbv_p"),
                                                                      INRANGE(last, "((%s *)(%s + %d))" % (ety, vw.begin, lw), "((%s *)(%s + sbv_n))" % (ety, vw.begin), "sbv_q"),
                                                                      ASSUME("%s && sbv_p <= sbv_q && sbv_q == (unsigned long)%s && sbv_n <= %d" % (FITS(LEN(vw)), LEN(vw), lw + 4))],
@@ -185,7 +197,7 @@ def dyn_contracts(u, ID, lw, be, ety):
          [("prefix-unchanged-before-pos", "SPEC_IMPLIES(sbv_k < sbv_p, %s == %s)" % (el(vw, "sbv_k"), el(vw, "sbv_k", True))),
           ("inserted-element", "SPEC_IMPLIES(sbv_k == sbv_p, %s == (uint8_t)%s)" % (el(vw, "sbv_k"), val)),
           ("tail-shifted-right-by-one", "SPEC_IMPLIES(sbv_k > sbv_p && sbv_k <= %s && sbv_j + 1 == sbv_k, %s == %s)" % (L0, el(vw, "sbv_k"), el(vw, "sbv_j", True)))],
-         None, iters=[(pos, "sbv_p")])
+         None, iters=[(pos, "sbv_p")], link=["sbv_mt0 == %d + sbv_k" % lw])
     # insert(pos, count, value)
     f = tgt("insert_n")
     p, rec, vw = dview(f)
@@ -196,76 +208,141 @@ def dyn_contracts(u, ID, lw, be, ety):
          [("prefix-unchanged-before-pos", "SPEC_IMPLIES(sbv_k < sbv_p, %s == %s)" % (el(vw, "sbv_k"), el(vw, "sbv_k", True))),
           ("inserted-copies", "SPEC_IMPLIES(sbv_k >= sbv_p && sbv_k < sbv_p + (unsigned long)%s, %s == (uint8_t)%s)" % (cnt, el(vw, "sbv_k"), val)),
           ("tail-shifted-right-by-count", "SPEC_IMPLIES(sbv_k >= sbv_p + (unsigned long)%s && sbv_k < %s + (unsigned long)%s && sbv_j + (unsigned long)%s == sbv_k, %s == %s)" % (cnt, L0, cnt, cnt, el(vw, "sbv_k"), el(vw, "sbv_j", True)))],
-         None, iters=[(pos, "sbv_p")])
-    # insert(pos, first, last): forward iterators (one block move) and single-pass input iterators (element-wise loop)
+         None, iters=[(pos, "sbv_p")], link=["sbv_mt0 == %d + sbv_k" % lw, "sbv_st0 == %d + sbv_k" % lw])
+    # ---------- range sources: pointer pair, initializer_list, range object
     GM = GK + [("unsigned long", "sbv_m")]
-    for nm, label in (("insert_range", "forward"), ("insert_input", "input")):
-        if not THOROUGH[0] or ID != "l8c_le":
-            break  # no back end decides these two content contracts within minutes (CBMC array_copy encoding); thorough tier, best effort (optional)
+    frame = lambda vw: ["__CPROVER_object_upto(%s, sbv_n)" % vw.begin]
+    STUBS = ("memmove", "memset")
 
+    def source(f, kind, i):
+        """(C expression of the first source element, preconditions establishing a fresh source range of sbv_m elements)"""
+        if kind == "ptr":
+            first, last = f.p[i], f.p[i + 1]
+            return first, [BUF(first, "sbv_m", cast=ety + " *"), SET(last, "%s + sbv_m" % first)]
+        if kind == "ilist":
+            il = f.p[i]
+            irec = f.params[i]["rec"]
+            arr, ln = "%s.%s" % (il, u.field(irec, 0)), "%s.%s" % (il, u.field(irec, 1))
+            return arr, [BUF(arr, "sbv_m", cast=ety + " *"), SET(ln, "sbv_m")]
+        if kind == "init":
+            first, last = f.p[i], f.p[i + 1]
+            fp = u.field(f.params[i]["rec"], 0)
+            src = "%s.%s" % (first, fp)
+            return src, [BUF(src, "sbv_m", cast=ety + " *"), SET("%s.%s" % (last, fp), "%s + sbv_m" % src)]
+        if kind == "range":
+            r = f.p[i]
+            rrec = f.params[i]["rec"]
+            b_, e_ = "(*%s).%s" % (r, u.field(rrec, 0)), "(*%s).%s" % (r, u.field(rrec, 1))
+            return b_, [OBJ(r, rrec), BUF(b_, "sbv_m", cast=ety + " *"), SET(e_, "%s + sbv_m" % b_)]
+        raise ToolError(kind)
+
+    # insert(pos, first, last) / insert(pos, ilist): forward iterators: resize, one block move of the tail, one block copy of the range
+    for nm, label, kind in (("insert_range", "insert(pos,first,last) forward iterators", "ptr"), ("insert_ilist", "insert(pos,ilist)", "ilist")):
         f = tgt(nm)
         p, rec, vw = dview(f)
-        pos, first, last = f.p[1], f.p[2], f.p[3]
-        if nm == "insert_range":
-            src = first
-            srcpre = [BUF(first, "sbv_m", cast=ety + " *"), SET(last, "%s + sbv_m" % first)]
-        else:
-            irec = f.params[2]["rec"]
-            fp = u.field(irec, 0)
-            src = "%s.%s" % (first, fp)
-            srcpre = [BUF(src, "sbv_m", cast=ety + " *"), SET("%s.%s" % (last, fp), "%s + sbv_m" % src)]
+        pos = f.p[1]
+        src, srcpre = source(f, kind, 2)
         pre = [OBJ(p, rec)] + vw.wf() + [ASSUME("%d <= sbv_n" % lw), INRANGE(pos, "((%s *)(%s + %d))" % (ety, vw.begin, lw), "((%s *)(%s + sbv_n))" % (ety, vw.begin), "sbv_p"), ASSUME("%d + sbv_p <= sbv_n" % lw)] + srcpre + \
-              [ASSUME("sbv_m == 2 && (unsigned long)%s == 2 && sbv_p == 1" % LEN(vw)), ASSUME("sbv_n == %d" % (lw + 6)), ASSUME("sbv_k < sbv_n && sbv_j < sbv_n && sbv_k + %d < sbv_n && sbv_j + %d < sbv_n" % (lw, lw))]
-        sidx = "((sbv_k >= sbv_p && sbv_k - sbv_p < sbv_m) ? sbv_k - sbv_p : 0)"
-        post = [("pos-inside-or-reported", "sbv_p <= %s" % L0), ("new-size-fits-or-reported", FITS("%s + sbv_m" % L0))] + lenbytes(vw, "%s + sbv_m" % L0) + [("returns-pos", "RET == OLD(%s)" % pos),
-                ("prefix-unchanged-before-pos", "SPEC_IMPLIES(sbv_k < sbv_p, %s == %s)" % (el(vw, "sbv_k"), el(vw, "sbv_k", True))),
-                ("inserted-range-in-order", "SPEC_IMPLIES(sbv_k >= sbv_p && sbv_k < sbv_p + sbv_m, %s == (uint8_t)%s[%s])" % (el(vw, "sbv_k"), src, sidx)),
-                ("tail-shifted-right-by-range-length", "SPEC_IMPLIES(sbv_k >= sbv_p + sbv_m && sbv_k < %s + sbv_m && sbv_j + sbv_m == sbv_k, %s == %s)" % (L0, el(vw, "sbv_k"), el(vw, "sbv_j", True)))]
-        add(f, "insert(pos,first,last) %s iterators [content]" % label, pre, post, assigns=["__CPROVER_object_upto(%s, sbv_n)" % vw.begin], ghosts=GM, props={"C13", "C10"}, kind="bounded(buffer==%d,size==2,range==2,pos==1; contents symbolic)" % (lw + 6), unwind=3, timeout=300, optional=True,
-            backends=["z3", "cvc5", "kissat", "minisat"])
-    # assign(first,last): copies first, then sets the length (documented precondition: the range fits the buffer)
-    f = tgt("assign_range_it")
+              [ASSUME("(unsigned long)%s <= %dUL && sbv_m <= %dUL - (unsigned long)%s" % (LEN(vw), MAXV, MAXV, LEN(vw)))]
+        post_s = [("pos-inside-or-reported", "sbv_p <= %s" % L0), ("new-size-fits-or-reported", FITS("%s + sbv_m" % L0))] + lenbytes(vw, "%s + sbv_m" % L0) + [("returns-pos", "RET == OLD(%s)" % pos)]
+        post_c = [("prefix-unchanged-before-pos", "SPEC_IMPLIES(sbv_k < sbv_p, %s == %s)" % (el(vw, "sbv_k"), el(vw, "sbv_k", True))),
+                  ("inserted-range-in-order", "SPEC_IMPLIES(sbv_k >= sbv_p && sbv_k < sbv_p + sbv_m, %s == (uint8_t)%s[sbv_r])" % (el(vw, "sbv_k"), src)),
+                  ("tail-shifted-right-by-range-length", "SPEC_IMPLIES(sbv_k >= sbv_p + sbv_m && sbv_k < %s + sbv_m && sbv_j + sbv_m == sbv_k, %s == %s)" % (L0, el(vw, "sbv_k"), el(vw, "sbv_j", True)))]
+        GR = GM + [("unsigned long", "sbv_r")]
+        add(f, label + " [structure]", pre, post_s, assigns=frame(vw), ghosts=GR, props={"C13", "C10"}, stubs=STUBS)
+        inb = [ASSUME("sbv_k < sbv_n && sbv_j < sbv_n && sbv_k + %d < sbv_n && sbv_j + %d < sbv_n" % (lw, lw)), ASSUME("sbv_m >= 1 && sbv_r < sbv_m && (sbv_k < sbv_p || sbv_k >= sbv_p + sbv_m || sbv_r == sbv_k - sbv_p)"),
+               ASSUME("sbv_mt0 == %d + sbv_k && sbv_mt1 == %d + sbv_k" % (lw, lw))]
+        add(f, label + " [content]", pre + inb, post_c, assigns=frame(vw), ghosts=GR, props={"C13", "C10"}, stubs=STUBS)
+    # insert(pos, first, last) with single-pass input iterators: one insert(pos, value) per element (a loop in sbepp);
+    # bounded in the range length only (<= 2 elements), unbounded in buffer, size and position
+    f = tgt("insert_input")
     p, rec, vw = dview(f)
-    first, last = f.p[1], f.p[2]
-    pre = [OBJ(p, rec)] + vw.wf() + [BUF(first, "sbv_m", cast=ety + " *"), SET(last, "%s + sbv_m" % first), ASSUME("sbv_m >= 1 && %d + sbv_m <= sbv_n && sbv_m <= %dUL" % (lw, MAXV)), ASSUME("sbv_n <= %d" % CAPL), ASSUME("sbv_k < sbv_m")]
-    add(f, "assign(first,last) [content]", pre, lenbytes(vw, "sbv_m") + [("elements-are-the-range", "%s == (uint8_t)%s[sbv_k]" % (el(vw, "sbv_k"), first))], assigns=["__CPROVER_object_upto(%s, sbv_n)" % vw.begin], mode="N", ghosts=GM,
-        props={"C13", "C10"}, kind="bounded(buffer<=%d)" % CAPL, unwind=CAPL + 2, backends=["z3", "cvc5", "kissat", "minisat"])
-    # assign_string(const char*)
+    pos = f.p[1]
+    src, srcpre = source(f, "init", 2)
+    GR = GM + [("unsigned long", "sbv_r")]
+    pre = [OBJ(p, rec)] + vw.wf() + [ASSUME("%d <= sbv_n" % lw), INRANGE(pos, "((%s *)(%s + %d))" % (ety, vw.begin, lw), "((%s *)(%s + sbv_n))" % (ety, vw.begin), "sbv_p"), ASSUME("%d + sbv_p <= sbv_n" % lw)] + srcpre + \
+          [ASSUME("sbv_m <= 2 && (unsigned long)%s <= %dUL && sbv_m <= %dUL - (unsigned long)%s" % (LEN(vw), MAXV, MAXV, LEN(vw)))]
+    post_s = [("pos-inside-or-reported", "sbv_m == 0 || sbv_p <= %s" % L0), ("new-size-fits-or-reported", "sbv_m == 0 || %s" % FITS("%s + sbv_m" % L0))] + lenbytes(vw, "%s + sbv_m" % L0) + [("returns-pos", "RET == OLD(%s)" % pos)]
+    post_c = [("prefix-unchanged-before-pos", "SPEC_IMPLIES(sbv_k < sbv_p, %s == %s)" % (el(vw, "sbv_k"), el(vw, "sbv_k", True))),
+              ("inserted-range-in-order", "SPEC_IMPLIES(sbv_k >= sbv_p && sbv_k < sbv_p + sbv_m, %s == (uint8_t)%s[sbv_r])" % (el(vw, "sbv_k"), src)),
+              ("tail-shifted-right-by-range-length", "SPEC_IMPLIES(sbv_k >= sbv_p + sbv_m && sbv_k < %s + sbv_m && sbv_j + sbv_m == sbv_k, %s == %s)" % (L0, el(vw, "sbv_k"), el(vw, "sbv_j", True)))]
+    kindb = "bounded(range<=2 elements; buffer, size, position, contents symbolic)"
+    add(f, "insert(pos,first,last) input iterators [structure]", pre, post_s, assigns=frame(vw), ghosts=GR, props={"C13", "C10"}, stubs=STUBS, kind=kindb, unwind=4)
+    inb = [ASSUME("sbv_k < sbv_n && sbv_j < sbv_n && sbv_k + %d < sbv_n && sbv_j + %d < sbv_n" % (lw, lw)), ASSUME("sbv_m >= 1 && sbv_r < sbv_m && (sbv_k < sbv_p || sbv_k >= sbv_p + sbv_m || sbv_r == sbv_k - sbv_p)"),
+           ASSUME("sbv_mt0 == %d + sbv_k - sbv_m + 1 && sbv_mt1 == sbv_mt0 + 1 && sbv_mt2 == sbv_mt0 + 2" % lw)]
+    add(f, "insert(pos,first,last) input iterators [content]", pre + inb, post_c, assigns=frame(vw), ghosts=GR, props={"C13", "C10"}, stubs=STUBS, kind=kindb, unwind=4)
+
+    # assign(first,last) / assign(ilist) / assign_range(r): copy, then set the length (documented precondition: the range fits the buffer)
+    for nm, label, kind in (("assign_range_it", "assign(first,last)", "ptr"), ("assign_ilist", "assign(ilist)", "ilist"), ("assign_range", "assign_range(r)", "range")):
+        f = tgt(nm)
+        p, rec, vw = dview(f)
+        src, srcpre = source(f, kind, 1)
+        pre = [OBJ(p, rec)] + vw.wf() + srcpre + [ASSUME("%d <= sbv_n && sbv_m <= sbv_n - %d && sbv_m <= %dUL" % (lw, lw, MAXV))]
+        add(f, label + " [structure]", pre, lenbytes(vw, "sbv_m"), assigns=frame(vw), mode="N", ghosts=GM, props={"C13", "C10", "C01"}, stubs=STUBS)
+        add(f, label + " [content]", pre + [ASSUME("sbv_k < sbv_m && sbv_mt0 == %d + sbv_k" % lw)], [("elements-are-the-range", "%s == (uint8_t)%s[sbv_k]" % (el(vw, "sbv_k"), src))], assigns=frame(vw), mode="N", ghosts=GM,
+            props={"C13", "C10", "C01"}, stubs=STUBS)
+    # assign(ilist) checks the size itself: a list that does not fit is reported and nothing is written
+    f = tgt("assign_ilist")
+    p, rec, vw = dview(f)
+    src, srcpre = source(f, "ilist", 1)
+    add(f, "assign(ilist) [reporting]", [OBJ(p, rec)] + vw.wf() + srcpre + [ASSUME("sbv_m <= %dUL" % MAXV)], [("list-fits-or-reported", FITS("sbv_m"))] + lenbytes(vw, "sbv_m"),
+        assigns=["%s: __CPROVER_object_upto(%s, sbv_n)" % (FITS("sbv_m"), vw.begin)], ghosts=GM, props={"C13", "C10"}, stubs=STUBS)
+    # assign_string(const char*): strlen is the ghost-length stub (engine.GHOST_STUBS): unbounded in the string length
     f = tgt("assign_string")
     p, rec, vw = dview(f)
     sp = f.p[1]
-    strl = "(" + " ".join("(%d < sbv_m && %s[%d] == 0) ? %dUL :" % (i, sp, i, i) for i in range(5)) + " 5UL)"
-    pre = [OBJ(p, rec)] + vw.wf() + [BUF(sp, "sbv_m"), ASSUME("sbv_m >= 1 && sbv_m <= 5"), ASSUME("%s[sbv_m - 1] == 0" % sp), ASSUME("%d <= sbv_n && sbv_n <= %d" % (lw, CAPL)), ASSUME("sbv_k < 4")]
-    add(f, "assign_string [content]", pre, [("new-size-fits-or-reported", FITS(strl))] + lenbytes(vw, strl) + [("elements-are-the-string", "SPEC_IMPLIES(sbv_k < %s, %s == (uint8_t)%s[sbv_k < sbv_m ? sbv_k : 0])" % (strl, el(vw, "sbv_k"), sp))],
-        assigns=["__CPROVER_object_upto(%s, sbv_n)" % vw.begin], ghosts=GM, props={"C13", "C10"}, kind="bounded(buffer<=%d,string<=4)" % CAPL, unwind=CAPL + 2, backends=["z3", "cvc5", "kissat", "minisat"])
-    # the same operation without the "new length is representable" assumption: capacity overflow must be reported, not truncated
-    if True:
-        f = tgt("insert_n")
+    pre = [OBJ(p, rec)] + vw.wf() + [BUF(sp, "sbv_m"), ASSUME("sbv_l < sbv_m && sbv_l <= %dUL" % MAXV), ASSUME("%d <= sbv_n" % lw), ASSUME("SPEC_NATIVE_ONLY(strlen(%s) == sbv_l)" % sp)]
+    SST = ("memmove", "memset", "strlen")
+    # const char* -> value_type* with a different value_type: libstdc++ copies element-wise (__copy_m loop), closed by a loop contract
+    skw = {}
+    sbound = []
+    if ety != "char":
+        # libstdc++ copies element-wise here (no memmove); a loop contract over the symbolic-size buffers does not get through CBMC's
+        # propositional conversion within minutes, so the string length is bounded instead (buffer, contents and position stay symbolic)
+        sbound = [ASSUME("sbv_l <= 3")]
+        skw = dict(kind="bounded(string<=3 chars)", unwind=5)
+    pre = pre + sbound
+    add(f, "assign_string [structure]", pre, [("new-size-fits-or-reported", FITS("sbv_l"))] + lenbytes(vw, "sbv_l"), assigns=["%s: __CPROVER_object_upto(%s, sbv_n)" % (FITS("sbv_l"), vw.begin)], ghosts=GM, props={"C13", "C10", "C01"}, stubs=SST, **skw)
+    add(f, "assign_string [content]", pre + [ASSUME("sbv_k < sbv_l && sbv_mt0 == %d + sbv_k" % lw)], [("elements-are-the-string", "%s == (uint8_t)%s[sbv_k]" % (el(vw, "sbv_k"), sp))],
+        assigns=["%s: __CPROVER_object_upto(%s, sbv_n)" % (FITS("sbv_l"), vw.begin)], ghosts=GM, props={"C13", "C10", "C01"}, stubs=SST, **skw)
+    # the same operations without the "new length is representable" assumption: capacity overflow must be reported, not truncated
+    f = tgt("insert_n")
+    p, rec, vw = dview(f)
+    pos, cnt, val = f.p[1], f.p[2], f.p[3]
+    pre = [OBJ(p, rec)] + vw.wf() + [ASSUME("%d <= sbv_n" % lw), INRANGE(pos, "((%s *)(%s + %d))" % (ety, vw.begin, lw), "((%s *)(%s + sbv_n))" % (ety, vw.begin), "sbv_p"), ASSUME("%d + sbv_p <= sbv_n" % lw)]
+    add(f, "insert(pos,count,value) [structure, any count]", pre,
+        [("pos-inside-or-reported", "sbv_p <= %s" % L0), ("new-size-representable-and-fits-or-reported", "%s <= %dUL && (unsigned long)%s <= %dUL - %s && %s" % (L0, MAXV, cnt, MAXV, L0, FITS("%s + (unsigned long)%s" % (L0, cnt))))],
+        assigns=frame(vw), ghosts=GK, props={"C13", "C10"}, stubs=STUBS)
+    if lw < 8:
+        f = tgt("assign_string")
         p, rec, vw = dview(f)
-        pos, cnt, val = f.p[1], f.p[2], f.p[3]
-        pre = [OBJ(p, rec)] + vw.wf() + [ASSUME("%d <= sbv_n" % lw), INRANGE(pos, "((%s *)(%s + %d))" % (ety, vw.begin, lw), "((%s *)(%s + sbv_n))" % (ety, vw.begin), "sbv_p"), ASSUME("%d + sbv_p <= sbv_n" % lw)]
-        add(f, "insert(pos,count,value) [structure, any count]", pre,
-            [("pos-inside-or-reported", "sbv_p <= %s" % L0), ("new-size-representable-and-fits-or-reported", "%s <= %dUL && (unsigned long)%s <= %dUL - %s && %s" % (L0, MAXV, cnt, MAXV, L0, FITS("%s + (unsigned long)%s" % (L0, cnt))))],
-            assigns=["__CPROVER_object_upto(%s, sbv_n)" % vw.begin], ghosts=GK, props={"C13", "C10"}, libc=("memmove", "memset"))
+        sp = f.p[1]
+        pre = [OBJ(p, rec)] + vw.wf() + [BUF(sp, "sbv_m"), ASSUME("sbv_l < sbv_m"), ASSUME("%d <= sbv_n" % lw), ASSUME("SPEC_NATIVE_ONLY(strlen(%s) == sbv_l)" % sp)] + sbound
+        add(f, "assign_string [structure, any length]", pre, [("new-size-representable-and-fits-or-reported", "sbv_l <= %dUL && %s" % (MAXV, FITS("sbv_l")))], assigns=frame(vw), ghosts=GM, props={"C13", "C10"}, stubs=SST, **skw)
     # assign(count, value)
     f = tgt("assign_n")
     p, rec, vw = dview(f)
     cnt, val = f.p[1], f.p[2]
     both(f, "assign(count,value)", [],
          [("new-size-fits-or-reported", FITS(cnt))] + lenbytes(vw, cnt),
-         [("all-elements-are-value", "SPEC_IMPLIES(sbv_k < (unsigned long)%s, %s == (uint8_t)%s)" % (cnt, el(vw, "sbv_k"), val))], None)
-    # resize(count) / resize(count, value): loops written in sbepp itself
+         [("all-elements-are-value", "SPEC_IMPLIES(sbv_k < (unsigned long)%s, %s == (uint8_t)%s)" % (cnt, el(vw, "sbv_k"), val))], None, link=["sbv_st0 == %d + sbv_k" % lw])
+    # resize(count) / resize(count, value): the initialising loop is written in sbepp itself and closed by a loop contract
     for nm, hasv in (("resize", False), ("resize_v", True)):
         f = tgt(nm)
         p, rec, vw = dview(f)
         cnt = f.p[1]
         val = f.p[2] if hasv else "0"
-        pre = [OBJ(p, rec)] + vw.wf() + [ASSUME("%d <= sbv_n" % lw), ASSUME("sbv_n <= %d" % CAPL), ASSUME("sbv_k < sbv_n && sbv_k + %d < sbv_n" % lw)]
-        add(f, "resize(count%s) [content]" % (",value" if hasv else ""), pre,
+        pre = [OBJ(p, rec)] + vw.wf() + [ASSUME("%d <= sbv_n" % lw), ASSUME("sbv_k < sbv_n && sbv_k + %d < sbv_n" % lw)]
+        elk = "(uint8_t)%s[%d + sbv_k]" % (vw.begin, lw)
+        inv = ["(unsigned long)old_size <= (unsigned long)i && (unsigned long)i <= (unsigned long)%s" % cnt, FITS(cnt)] + [e for _, e in lenbytes(vw, cnt)] + \
+              ["SPEC_IMPLIES(sbv_k < (unsigned long)old_size, %s == __CPROVER_loop_entry(%s))" % (elk, elk),
+               "SPEC_IMPLIES(sbv_k >= (unsigned long)old_size && sbv_k < (unsigned long)i, %s == (uint8_t)%s)" % (elk, val)]
+        loop = Loop(assigns=["i", "__CPROVER_object_upto(%s, sbv_n)" % vw.begin], invariants=inv, decreases="(unsigned long)%s - (unsigned long)i" % cnt)
+        add(f, "resize(count%s)" % (",value" if hasv else ""), pre,
             [("new-size-fits-or-reported", FITS(cnt))] + lenbytes(vw, cnt) +
             [("kept-elements-unchanged", "SPEC_IMPLIES(sbv_k < %s && sbv_k < (unsigned long)%s, %s == %s)" % (L0, cnt, el(vw, "sbv_k"), el(vw, "sbv_k", True))),
              ("new-elements-initialised", "SPEC_IMPLIES(sbv_k >= %s && sbv_k < (unsigned long)%s, %s == (uint8_t)%s)" % (L0, cnt, el(vw, "sbv_k"), val))],
-            assigns=["__CPROVER_object_upto(%s, sbv_n)" % vw.begin], ghosts=GK, props={"C13", "C10"}, kind="bounded(buffer<=%d)" % CAPL, unwind=CAPL + 2, backends=["kissat", "minisat", "z3", "cvc5"])
+            assigns=frame(vw), ghosts=GK, props={"C13", "C10", "C01"}, loops={0: loop})
     return out
 
 
